@@ -49,6 +49,7 @@ def run(ctx):
         rule_flush_pairing(ctx, "C11.O", fv, "cgr::vectorise")
         point_text(ctx, "C11.O", fv, "cgr::vectorise", "({},{})", 2)
         error_discipline(ctx, "C11.E", fv, "cgr::vectorise", "composition::cgr::CgrComputer::vectorise_one")
+        row_source(ctx, "C11.O", fv, "cgr::vectorise", "composition::cgr::CgrComputer::vectorise_one")
     from . import c06
     c06.reader_deps(ctx, "C11")
     from . import c15, c17
@@ -245,6 +246,33 @@ def point_text(ctx, rule, fv, who, template, nargs):
     ctx.check(rule, "%s:row_text" % who, okr, "row = points joined by a space + newline",
               "row is not `points.join(\" \")` + newline", line_of(rows[0][0]) if rows else fv.fn["sp"])
 
+
+
+def row_source(ctx, rule, fv, who, one):
+    """The points of a row are those of ONE walk over the WHOLE record: the per-record routine is called once per
+    record, on the record's complete `seq` — a walk over pieces (`chunks`, a sub-slice, a filtered copy) restarts the
+    marker at the centre in the middle of the record or changes which bases get a point."""
+    calls = fv.calls_to(one)
+    bad = None
+    for c in calls:
+        t = fv.term(c["args"][0]) if c.get("args") else ("none",)
+        while t[0] in ("addr", "deref", "ref") and len(t) >= 2 and isinstance(t[-1], tuple):
+            t = t[-1]
+        if t[0] == "call" and t[1].split("::")[-1] in ("as_slice", "as_ref", "deref", "borrow") and len(t) == 3:
+            t = t[2]
+        whole = t[0] == "field" and "seq" in t[1:] and not contains(t, lambda s_: s_[0] == "index")
+        clo = fv.enclosing(c, ("closure",))
+        lp = fv.enclosing(c, ("for", "while", "loop"))
+        inner_loop = lp is not None and clo is not None and any(x is lp for x in walk(clo))
+        if not whole:
+            bad = ("%s is called on `%s`, not on the record's whole `seq`" % (one.split("::")[-1], show(t)[:100]), c)
+        elif inner_loop:
+            bad = ("%s is called inside a loop within the per-record closure: a record is walked in several pieces, "
+                   "each restarting at the centre" % one.split("::")[-1], c)
+    ctx.check(rule, "%s:row_source" % who, bad is None and len(calls) == 1,
+              "one call of the per-record routine per record, on the record's whole seq",
+              bad[0] if bad else "%d calls of the per-record routine (expected 1)" % len(calls),
+              line_of(bad[1]) if bad else fv.fn["sp"])
 
 
 def error_discipline(ctx, rule, fv, who, one):
